@@ -25,6 +25,23 @@ PROPS = {
         "level_text": "Exploration: hundreds of thousands of seeded matrices per run across 17 ring types and all 16 flag subsets; each returned D, P, P^-1, Q, Q^-1 is judged by exact re-multiplication, an independent textbook SNF and minors. Right level: the contract is an input/configuration property with a cheap exact oracle.",
         "level_note": "Trusts the oracle's dense arithmetic and textbook SNF (self-tested against minors); sampled shapes and entries, not exhaustive.",
     },
+    "C10": {
+        "budget_s": {"quick": 120, "thorough": 1500},
+        "floor": {"quick": 10000, "thorough": 200000},
+        "rule": "lll_hnf: same matrix families as C09 (any shape incl. 0 rows/cols, any rank, entries to 2000 bits) over BigInt, i64, i128, Gauss/Eisenstein over BigInt and i64 x transform flags; "
+                "lll: matrices with independent rows (checked by the oracle rank; 0 <= m <= n <= 8, incl. unimodularly skewed bases) over the same rings; checks: H = P A, P P^-1 = I, P^-1 H = A, P unimodular, "
+                "echelon shape (leading columns strictly increasing, zero rows last), pivots normalised, entries above a pivot of strictly smaller norm, #non-zero rows = oracle rank; B = P A, P unimodular, "
+                "size-reducedness (mu coordinates in the ring's division basis within [-1/2,1/2]) and Lovasz (alpha = 3/4, 2/3 for Eisenstein) by exact Gram-Schmidt over Q(sqrt D); hook step counters under a logical bound; "
+                "non-trivial = >= 2 rows and non-zero (HNF) / >= 2 rows and input not already reduced (LLL); distinct = hash(matrix, flags)",
+        "assumptions": COMMON_ASSUME + [
+            "machine-integer rings may overflow inside LLL: counted as inconclusive",
+            "termination judged on hook iteration counters against 1000 + 64 (m+1)^2 (bits (n+1) + 16), never on time",
+            "LLL inputs whose rows are dependent are skipped (the property only speaks of independent rows)",
+        ],
+        "technique": "reference-model monitor: real lll()/lll_hnf() calls judged by exact re-multiplication, own echelon/normalisation predicates and exact Gram-Schmidt (size-reduction + Lovasz) over Q(sqrt D); hook iteration counters as logical clock",
+        "level_text": "Exploration: hundreds of thousands of seeded matrices over Z, Z[i], Z[omega] (machine and arbitrary precision); the Hermite and LLL contracts are decided by an exact oracle. Right level: input/configuration property with a cheap exact judge; termination restated as a logical step bound.",
+        "level_note": "Trusts the oracle's exact Gram-Schmidt and dense arithmetic; the Lovasz constants (3/4, 2/3) are taken from the library's documented choice; sampled inputs.",
+    },
     "C14": {
         "budget_s": {"quick": 60, "thorough": 900},
         "floor": {"quick": 50000, "thorough": 1000000},
